@@ -297,6 +297,14 @@ def run_case(concepts, case, spec):
         if len(arg) > 2:
             arg.pop(0)
     COL.count('interleaved_lookups')
+    # the lattice itself is an Iterable[Concept]; so are its slices and its atoms tuple
+    call(lat.join, lat)
+    call(lat.meet, lat)
+    call(lat.join, lat[:3])
+    call(lat.meet, lat[-3:])
+    call(lat.join, lat.atoms)
+    call(lat.meet, lat.atoms)
+    COL.count('lattice_object_as_argument')
     call(lat.join, [])
     call(lat.meet, ())
     # concepts that outlive every other reference to their lattice and context
